@@ -311,6 +311,16 @@ class Interp:
             if all(isinstance(c, bool) for c in conj):
                 return all(conj)
             return z3.And(*[as_bool(c) for c in conj])
+        if isinstance(a, dict) and isinstance(b, dict):
+            if set(map(repr, a.keys())) != set(map(repr, b.keys())):
+                return False
+            conj = [self.eq(a[k], b[k]) for k in a]
+            if any(c is False for c in conj):
+                return False
+            conj = [c for c in conj if c is not True]
+            if not conj:
+                return True
+            return z3.And(*[as_bool(c) for c in conj])
         if isinstance(a, SymObj) or isinstance(b, SymObj):
             if isinstance(a, SymObj):
                 hook = self.reg and self.reg.protocol(a.cls, '__eq__')
@@ -390,6 +400,19 @@ class Interp:
                 return self.truth(self.call_method(b, DUNDER[rop], [a], {}))
         if hasattr(a, 'sym_cmp'):
             return a.sym_cmp(self, op, b)
+        if isinstance(a, (tuple, list)) and isinstance(b, (tuple, list)) and type(a) is type(b):
+            # lexicographic order
+            strict = op in ('<', '>')
+            base = '<' if op in ('<', '<=') else '>'
+            n = min(len(a), len(b))
+            res = (len(a) < len(b)) if base == '<' else (len(a) > len(b))
+            if not strict and len(a) == len(b):
+                res = True
+            for i in range(n - 1, -1, -1):
+                lt = as_bool(self.compare(base, a[i], b[i]))
+                eq_ = as_bool(self.eq(a[i], b[i]))
+                res = z3.Or(lt, z3.And(eq_, as_bool(res)))
+            return z3.simplify(res) if is_z3(res) else res
         ta, tb = self.num(a), self.num(b)
         if ta is not None and tb is not None:
             return {'<': operator.lt, '<=': operator.le, '>': operator.gt, '>=': operator.ge}[op](ta, tb)
@@ -490,7 +513,7 @@ class Interp:
             if op == '%' and isinstance(a, str):
                 return OpaqueStr([a, b])
         if isinstance(a, SymObj):
-            dn = {'+': '__add__', '-': '__sub__', '*': '__mul__'}.get(op)
+            dn = {'+': '__add__', '-': '__sub__', '*': '__mul__', '/': '__truediv__'}.get(op)
             if dn:
                 hook = self.reg and self.reg.protocol(a.cls, dn)
                 if hook:
@@ -645,6 +668,8 @@ class Interp:
 
     def getattr(self, obj, name, node=None):
         if isinstance(obj, SymObj):
+            if obj.cls == '__super__':
+                return BoundMethod(obj, name)
             if name in obj.fields:
                 v = obj.fields[name]
                 if v is UNDEF:
@@ -972,7 +997,7 @@ class Interp:
                     parts.append(str(x))
                 else:
                     allc = False
-                    parts.append(x if v.format_spec is None else ('fmt', x, ast.unparse(v.format_spec)))
+                    parts.append(x if v.format_spec is None else ('fmt', x, ''.join(c.value for c in v.format_spec.values if isinstance(c, ast.Constant))))
         if allc:
             return ''.join(parts)
         return OpaqueStr(parts)
@@ -1559,6 +1584,25 @@ class Interp:
                 return abs(v)
             return z3.If(v >= 0, v, -v)
         def _minmax(i, a, k, ismin):
+            if len(a) == 1:
+                try:
+                    i.iter_concrete(a[0])
+                except Unsupported:
+                    view = i.as_view(a[0])
+                    n = view.length()
+                    if not i.e.branch(n > 0, 'minmax-nonempty'):
+                        if 'default' in k:
+                            return k['default']
+                        i.raise_('ValueError', 'max() arg is an empty sequence')
+                    # assumed contract of builtin min/max over ints
+                    m_ = i.e.int('minmax')
+                    j = z3.Int(i.e.fresh_name('j_mm'))
+                    wit = i.e.int('minmax_at')
+                    el = view.get(j)
+                    i.e.assume(z3.ForAll([j], z3.Implies(z3.And(0 <= j, j < n), (el >= m_) if ismin else (el <= m_))))
+                    i.e.assume(z3.And(0 <= wit, wit < n, view.get(wit) == m_))
+                    i.e.note('assumed: builtin min/max over a sequence of ints returns a bound that is attained')
+                    return m_
             items = a if len(a) > 1 else i.iter_concrete(a[0])
             if not items:
                 if 'default' in k:
